@@ -37,6 +37,17 @@ Tested part (numerical tests, never counted as theorems):
              the values) get one variant per ConfigState field and alternative value plus the all-fields variant (fail
              closed on a ConfigState field without alternative); recording solver callbacks tell which configuration's
              callback ran.  All other instances get the all-fields variant.
+  derived    (inside every routes case) operators DERIVED from an instance - reduce(), reduce twice, .T.T, .T.reduce().T.reduce(),
+             wrapped in a composition with an identity / negated twice / added to itself / put in a block diagonal or block column and
+             reduced, flatten-unflatten, jax.tree.map, equinox partition/combine, copy, deepcopy (`derivations`) - under an ambient
+             configuration DIFFERENT from the one the instance was built under: derived eagerly inside a `with Config(...)` block and
+             applied inside / outside (eagerly, jit over a closure, jit argument), derived inside a jitted function that closes over the
+             original (traced inside, called outside; traced outside, called inside), derived outside and applied inside.  Every result
+             must equal eager application of the ORIGINAL: deriving must not rebuild a lazy inverse with the configuration active then.
+             All derivations for the operators that hold a configuration; reduce / .T.T / tree map for the others in the quick tier.
+             Holders whose captured solver converges (alone, in a composition, in a sum) are also compared with numpy.linalg.solve.
+  static++   scan ambient_rebuild_scan: no method resolved on a class whose constructor reads ambient state (InverseOperator) builds a
+             new instance of it (type(self)(...), self.__class__(...), Cls(...), dataclasses.replace(self)).
   pairs      (`pairs` cases; coverage fail closed against the regenerated field table) for EVERY field of the jit cache
              key of every concrete operator class - static fields, every field of the record stored in a static field
              (ConfigState: solver, solver_throw, solver_options, solver_callback), Python leaves of dynamic fields (axes,
@@ -467,6 +478,11 @@ def instances(dt_name: str, workdir: Path):
     add('inverse-of-addition', built_under(lambda: (spd() + d2()).I, lambda: {'solver': coarse()}), exact=False, tol=1e-4)
     add('inverse-in-composition', built_under(lambda: spd().I @ d2(), lambda: {'solver': coarse()}), exact=False, tol=1e-4)
     add('inverse-in-addition', built_under(lambda: spd().I + d2(), lambda: {'solver': coarse()}), exact=False, tol=1e-4)
+
+    # converged captured solvers inside composites: the results are also compared with numpy.linalg.solve (NUMPY_REFERENCE)
+    accurate = lambda: {'solver': lx.CG(rtol=1e-7, atol=1e-7, max_steps=50)}  # noqa: E731
+    add('inverse-converged-in-composition', built_under(lambda: spd().I @ d2(), accurate), exact=False, tol=1e-4)
+    add('inverse-converged-in-addition', built_under(lambda: spd().I + d2()), exact=False, tol=1e-4)
 
     def inverse_in_block_diagonal():
         op, _ = built_under(lambda: BlockDiagonalOperator([spd(), d2()]).I, lambda: {'solver': coarse()})()
@@ -1210,6 +1226,7 @@ def run_static(case):
     return {
         'hidden_state': tr.hidden_state_scan(ops), 'conversions': tr.conversion_scan(ops, finfo), 'classes': len(ops),
         'static_equality': tr.static_equality_scan(ops, finfo)[0], 'ambient_reads': tr.ambient_read_scan(ops),
+        'ambient_rebuilds': tr.ambient_rebuild_scan(ops),
     }
 
 
@@ -1337,6 +1354,26 @@ AS_MATRIX_SKIP: dict[str, str] = {
 }
 
 
+def _numpy_reference():
+    import numpy as np
+
+    a = np.array([[4.0, 1.0, 0.0], [1.0, 3.0, 1.0], [0.0, 1.0, 2.0]])
+    d = np.array([2.0, 4.0, 8.0])
+    b = np.array([1.0, 2.0, 3.0])
+    return {
+        'inverse-cg': lambda: np.linalg.solve(a, b),
+        'inverse-cg-throw': lambda: np.linalg.solve(a, b),
+        'inverse-converged-in-composition': lambda: np.linalg.solve(a, d * b),
+        'inverse-converged-in-addition': lambda: np.linalg.solve(a, b) + d * b,
+    }
+
+
+# instances whose captured solver converges: expected values by numpy.linalg.solve on the same matrices (float64),
+# independent of furax and lineax; eager application must match it at the instance's tolerance, and every other route
+# (ambient / derived sequences included) is compared with eager
+NUMPY_REFERENCE = _numpy_reference()
+
+
 def run_routes(case, workdir: Path):
     """All execution routes of one operator instance, in several ORDERS on the same object and on fresh
     (separately built, equal) objects.  Hidden per-object or per-process state (caches filled during a
@@ -1373,7 +1410,8 @@ def run_routes(case, workdir: Path):
             try:
                 out['routes'][name] = obs(f())
             except Exception as e:
-                out['routes'][name] = {'error': f'{type(e).__name__}: {str(e)[:300]}'}
+                msg = ' '.join(str(e).split())
+                out['routes'][name] = {'error': f'{type(e).__name__}: {msg if len(msg) <= 300 else msg[:100] + " ... " + msg[-200:]}'}
             try:
                 cb = cb_counts()
             except Exception as e:  # a callback that raised surfaces at the barrier
@@ -1400,6 +1438,8 @@ def run_routes(case, workdir: Path):
         if case.get('first') == 'traced':
             seq_b()
         route('eager', lambda: op.mv(x))
+        if case['inst'] in NUMPY_REFERENCE:
+            out['numpy_reference_hex'] = NUMPY_REFERENCE[case['inst']]().astype('float64').tobytes().hex()
         route('call', lambda: op(x))
         route('jit-closure', lambda: jax.jit(lambda v: op.mv(v))(x))
         if not mask:
@@ -1456,6 +1496,8 @@ def run_routes(case, workdir: Path):
             route('seqE/3-jit-closure', lambda: jax.jit(lambda v: oe.mv(v))(x))
         # the AMBIENT configuration differs between trace time and call time
         ambient_sequences(case, out, route, fresh, builder, op, x, mask)
+        # operators DERIVED from this one (reduce, transposition, wrapping, tree maps, copies) under another ambient configuration
+        derived_sequences(case, out, route, fresh, builder, op, x, mask)
         # declared output structure vs what eager returned
         try:
             out['declared_out'] = structure_str(op.out_structure())
@@ -1614,6 +1656,138 @@ def ambient_sequences(case, out, route, fresh, builder, op, x, mask):
                     route(f'{p}/B8-as-matrix-inside', lambda: ob, obs=lambda o: as_matrix_obs(o, x))
 
 
+def derivations(op):
+    """Ways of obtaining a NEW operator object from an existing one that must act like the original and must not create
+    a new lazy inverse: name -> (derive(o) -> o', adapt(x) -> input of o', pick(y) -> the part of o'(adapt(x)) that must
+    equal o(x)).  Algebraic (reduce, transposition, wrapping in a composition / sum / block and reducing that) and
+    structural (pytree round trip, tree map, partition/combine, copies).  `.I.I` is NOT one of them: the second `.I`
+    legitimately creates a new inverse under the configuration active then."""
+    import copy
+
+    import equinox as eqx
+    import jax
+
+    from furax._base.blocks import BlockColumnOperator, BlockDiagonalOperator
+    from furax._base.core import IdentityOperator
+
+    same = lambda v: v  # noqa: E731
+    half = lambda y: jax.tree.map(lambda l: l / 2, y)  # noqa: E731  (exact: a power of two)
+    table = {
+        'reduce': (lambda o: o.reduce(), same, same),
+        'reduce-twice': (lambda o: o.reduce().reduce(), same, same),
+        'transpose-twice': (lambda o: o.T.T, same, same),
+        'transpose-reduce-transpose-reduce': (lambda o: o.T.reduce().T.reduce(), same, same),
+        'compose-identity-reduce': (lambda o: (o @ IdentityOperator(o.in_structure())).reduce(), same, same),
+        'identity-compose-reduce': (lambda o: (IdentityOperator(o.out_structure()) @ o).reduce(), same, same),
+        'negate-twice-reduce': (lambda o: (-(-o)).reduce(), same, same),
+        'sum-with-itself-reduce': (lambda o: (o + o).reduce(), same, half),
+        'block-diagonal-reduce': (lambda o: BlockDiagonalOperator([IdentityOperator(o.in_structure()), o]).reduce(), lambda v: [v, v], lambda y: y[1]),
+        'block-column-reduce': (lambda o: BlockColumnOperator({'p': o, 'q': o}).reduce(), same, lambda y: y['q']),
+        'flatten-unflatten': (lambda o: jax.tree.unflatten(*reversed(jax.tree.flatten(o))), same, same),
+        'tree-map': (lambda o: jax.tree.map(lambda l: l, o), same, same),
+        'partition-combine': (lambda o: eqx.combine(*eqx.partition(o, eqx.is_array)), same, same),
+        'copy': (lambda o: copy.copy(o), same, same),
+        'deepcopy': (lambda o: copy.deepcopy(o), same, same),
+    }
+    return table
+
+
+DERIVED_QUICK_PLAIN = ('reduce', 'transpose-twice', 'tree-map')  # quick tier, operators that hold no configuration
+
+
+def derived_sequences(case, out, route, fresh, builder, op, x, mask):
+    """Operators DERIVED from an existing one (see `derivations`) under an ambient configuration that differs from the
+    one the original was built under - deriving must not rebuild a lazy inverse (and so replace the configuration it
+    captured by the one active when reduce() / .T / a tree map happens to run, eagerly or at trace time).  Reference:
+    eager application of the ORIGINAL object under the default ambient configuration (`eager`).
+
+      I  derive eagerly INSIDE a `with Config(...)` block: apply eagerly inside and outside, jit over a closure and
+         jit taking the derived operator as argument outside
+      J  derive inside a jitted function that closes over the original: traced (first called) inside, called again outside
+      O  derive eagerly OUTSIDE (default ambient - the instance tables build the holders under another one) and apply
+         inside; derive inside a jitted function traced outside and called inside
+
+    Operators that hold a configuration: every derivation (quick tier: the jit-over-closure / jit-argument / traced-outside
+    routes for three derivations rotating with the instance).  Others: thorough every derivation with I and J; quick
+    (x64 off) DERIVED_QUICK_PLAIN with eager-inside and J."""
+    import equinox as eqx
+    import jax
+
+    from furax import Config
+
+    holders = config_holders(op)
+    thorough = case.get('amb', 'full') == 'full'
+    if not holders and not thorough and case.get('x64'):
+        return
+    alts, _ = ambient_alternatives(op)
+    variants = [('all-fields', {k: v[0][1] for k, v in alts.items()})]
+    if holders and thorough:
+        variants.append(('solver=default', {'solver': alts['solver'][1][1]}))
+    table = derivations(op)
+    names = list(table)
+    if not holders and not thorough:
+        names = [n for n in names if n in DERIVED_QUICK_PLAIN]
+    k0 = sum(map(ord, case['inst'])) + (5 if case.get('x64') else 0) + (3 if case.get('dt') == 'f64' else 0)
+    full = set(names) if thorough else ({names[(k0 + 5 * j) % len(names)] for j in range(3)} if holders else set())
+    # a derivation that raises on the plain object under the default configuration (deterministic Python-level failure of
+    # reduce() / .T, whatever the route) is no clause of this property: recorded (evidence: informative), not run
+    not_derivable = {}
+    for d in list(names):
+        try:
+            table[d][0](op)
+        except Exception as e:
+            not_derivable[d] = f'{type(e).__name__}: {str(e)[:160]}'
+            names.remove(d)
+    CB_LOG.clear()
+    if not names:
+        out['derived'] = {'derivations': [], 'not_derivable': not_derivable}
+        return
+    full = {d for d in full if d in names}
+    out['derived'] = {'derivations': names, 'all_routes_for': sorted(full), 'variants': [t for t, _ in variants], 'not_derivable': not_derivable}
+    fja = eqx.filter_jit(lambda o, v: o.mv(v))
+    for tag, amb in variants:
+        oa = fresh(f'derived[{tag}]/I')
+        ob = fresh(f'derived[{tag}]/O')
+        for d in names:
+            derive, adapt, pick = table[d]
+            p = f'derived[{tag}]/{d}'
+            xa = adapt(x)
+            made = {}
+            fj = jax.jit(lambda v, derive=derive, adapt=adapt, pick=pick: pick(derive(oa).mv(adapt(v))))
+            with Config(**amb):
+                def i1():
+                    made['i'] = derive(oa)
+                    return pick(made['i'].mv(xa))
+
+                route(f'{p}/I1-derived-inside-applied-inside', i1)
+                route(f'{p}/J1-derived-in-jit-traced-inside', lambda: fj(x))
+            route(f'{p}/J2-derived-in-jit-called-outside', lambda: fj(x))
+            if not holders and not thorough:
+                continue
+            if 'i' in made:
+                route(f'{p}/I2-derived-inside-applied-outside', lambda: pick(made['i'].mv(xa)))
+                if d in full:
+                    route(f'{p}/I3-derived-inside-jit-closure-outside', lambda: pick(jax.jit(lambda v: made['i'].mv(v))(xa)))
+                    if not mask:
+                        route(f'{p}/I4-derived-inside-jit-argument-outside', lambda: pick(fja(made['i'], xa)))
+            if not holders:
+                continue
+
+            def o1():
+                made['o'] = derive(ob)
+                return pick(made['o'].mv(xa))
+
+            route(f'{p}/O1-derived-outside-applied-outside', o1)
+            if d in full:
+                fo = jax.jit(lambda v, derive=derive, adapt=adapt, pick=pick: pick(derive(ob).mv(adapt(v))))
+                route(f'{p}/O2-derived-in-jit-traced-outside', lambda: fo(x))
+            with Config(**amb):
+                if 'o' in made:
+                    route(f'{p}/O3-derived-outside-applied-inside', lambda: pick(made['o'].mv(xa)))
+                if d in full:
+                    route(f'{p}/O4-derived-in-jit-called-inside', lambda: fo(x))
+
+
 def field_facts(op):
     """Per dataclass field (in order): does JAX's flattening of the module expose array leaves under it?"""
     import dataclasses
@@ -1663,6 +1837,15 @@ AMBIENT_NOTE = (
 )
 
 
+DERIVED_NOTE = (
+    ' [derived operator: route derived[<ambient fields replaced>]/<derivation, see harness/c18.py derivations()>/<step>; the operator '
+    'was built under one configuration, a new operator object was derived from it (reduce(), .T.T, wrapped in a composition / sum / '
+    'block and reduced, tree map, copy ...) `inside` = while a `with Config(...)` block replacing the named field(s) is active or '
+    '`outside` = under the default configuration, eagerly or inside a jitted function that closes over the original; the derived '
+    'operator must act like the ORIGINAL applied eagerly: a lazy inverse keeps the configuration it captured when it was created]'
+)
+
+
 def judge_routes(case, obs):
     """The property on one instance: all routes, in every order and on every equal object, agree with
     eager application in structure, shapes, dtypes and values."""
@@ -1676,6 +1859,12 @@ def judge_routes(case, obs):
     note = f' [the routes left per-object state behind: {hs["gained"]}]' if hs.get('gained') else ''
     if ref is None or 'error' in ref:
         return f'eager application failed: {ref}{note}'
+    if 'numpy_reference_hex' in obs:
+        want = np.frombuffer(bytes.fromhex(obs['numpy_reference_hex']), dtype=np.float64)
+        got = np.concatenate([leaf_values(l).ravel() for l in ref['leaves']])
+        tol = _num(obs.get('tol')) or 1e-6
+        if got.shape != want.shape or not float(np.max(np.abs(got - want))) <= tol * max(1.0, float(np.max(np.abs(want)))) * 8:
+            return f'eager application returns {got.tolist()}, numpy.linalg.solve on the same system {want.tolist()} (tolerance {tol * 8:.3g} relative to the largest entry)'
     rt = obs.get('roundtrip', {})
     if 'error' in rt:
         return f'flatten/unflatten of the operator failed: {rt["error"]}'
@@ -1687,14 +1876,15 @@ def judge_routes(case, obs):
     amb = obs.get('ambient', {})
     if amb.get('unvaried_config_fields'):
         return f'fields of ConfigState without an alternative value in harness/c18.py ambient_alternatives (ambient sequences do not vary them): {amb["unvaried_config_fields"]}'
-    base_order = ' (sequence order: ' + ' -> '.join(n for n in r if not n.startswith('ambient[')) + ')'
+    base_order = ' (sequence order: ' + ' -> '.join(n for n in r if not n.startswith(('ambient[', 'derived['))) + ')'
     ref_cb = ref.get('cb', {})
     for name, o in r.items():
         if name == 'eager':
             continue
-        ambient = name.startswith('ambient[')
-        order = AMBIENT_NOTE if ambient else base_order
-        note = (f' [the routes left per-object state behind: {hs["gained"]}]' if hs.get('gained') else '') + (AMBIENT_NOTE if ambient else '')
+        ambient = name.startswith(('ambient[', 'derived['))
+        amb_note = DERIVED_NOTE if name.startswith('derived[') else AMBIENT_NOTE
+        order = amb_note if ambient else base_order
+        note = (f' [the routes left per-object state behind: {hs["gained"]}]' if hs.get('gained') else '') + (amb_note if ambient else '')
         cb = o.get('cb', {})
         if cb.get('ambient') or 'error' in cb:
             return f'route {name}: the solver callback of the ACTIVE configuration ran (the operator captured another one when it was built): {cb}{note}'
@@ -1851,6 +2041,10 @@ class Check(PropertyCheck):
         'differs exactly in the declared field is established by the harness-side diff key_diff / same_static (never through the '
         '__eq__ of a furax dataclass); the equality of third-party objects stored in the configuration (lineax solvers: equinox '
         'tree equality) is not scanned, only exercised (pairs inverse/solver-*)',
+        'derived-operator sequences (reduce / transposition / wrapping / tree maps / copies under another ambient configuration) and the '
+        'scan ambient_rebuild_scan are implementation-side: reference = eager application of the original object under the default ambient '
+        'configuration, plus numpy.linalg.solve (float64, on the matrices the instance was built from) for the holders whose captured solver '
+        'converges; that reduce() preserves the action for operators holding no configuration is the subject of C01/C05, here it is only used',
         'Part C of the model (rec_eq) is the dataclass-generated __eq__ / an and-chain over the fields; that JAX compares the aux '
         'data of two treedefs with == and that equinox stores the static field values there is tested by the pairs, not proved',
         'route sequences, parameter variants and the static scans (hidden state, Python-level conversions) are '
@@ -1886,6 +2080,7 @@ class Check(PropertyCheck):
         self.stats['hidden_state'] = self._tr['hidden_state']
         self.stats['python_level_conversions_of_traced_fields'] = self._tr['conversions']
         self.stats['ambient_state_reads_outside_constructors'] = self._tr['ambient_reads']
+        self.stats['methods_rebuilding_a_configuration_capturing_operator'] = self._tr['ambient_rebuilds']
         self.stats['static_fields_not_compared'] = self._tr['static_equality']
         self.stats['records_stored_in_static_fields'] = self._tr['static_records']
 
@@ -2058,6 +2253,10 @@ class Check(PropertyCheck):
             'constructors and for fields left out of the equality of the static part. ambient (inside every routes case): the '
             'routes with the active furax configuration different at trace time and at call time (traced inside a Config block / '
             'called outside and vice versa; per ConfigState field and all fields for the operators that hold a configuration). '
+            'derived (inside every routes case): operators derived from the instance (reduce, transposition twice, wrapping in a composition / '
+            'sum / block then reduce, pytree round trip, tree map, partition/combine, copies) under an ambient configuration other than the '
+            'creation one, eagerly and inside jitted functions traced inside / outside a Config block, compared with eager application of the '
+            'original (and numpy.linalg.solve for converged captured solvers). '
             'pairs: for every field of the jit cache key of every concrete class (coverage fail closed) two operators differing '
             'exactly there x {filter_jit a,b,a,b (and b,a), jax.jit with static treedef and leaves, jit over closures} x {x64 off/f32, x64 on/f64}. '
             'Distinct by canonical JSON of the case.'
@@ -2081,7 +2280,7 @@ class Check(PropertyCheck):
 
     # ---- implementation ----------------------------------------------------------------------
     N_OTHER_MODE = 5  # worker processes for the cases of the other x64 mode
-    N_SAME_MODE = 3   # worker processes sharing the cases of this process's mode
+    N_SAME_MODE = 4   # worker processes sharing the cases of this process's mode
 
     def _start_prefetch(self):
         """The cases of the other x64 mode run in worker subprocesses while this process does (its share
@@ -2226,6 +2425,12 @@ class Check(PropertyCheck):
                     'the configuration active at call time, under jit the one active at TRACE time, frozen in the compiled function - '
                     f'eager and jitted application disagree as soon as the two differ: {obs["ambient_reads"]}'
                 )
+            if obs.get('ambient_rebuilds'):
+                return (
+                    'methods of operator classes whose constructor captures the active configuration rebuild the object through that '
+                    'constructor: the derived operator (and a jitted function that derives it at trace time) uses the configuration active '
+                    f'then, not the captured one: {obs["ambient_rebuilds"]}'
+                )
             if obs.get('static_equality'):
                 return (
                     'the static part of an operator is the cache key of a jit that takes the operator as argument, but not every field '
@@ -2311,7 +2516,8 @@ class Check(PropertyCheck):
             per_mode[key] = per_mode.get(key, 0) + 1
             if obs['mask']:
                 masks[c['inst'] + '/' + key] = obs.get('mask_filter_jit')
-        npairs = npair_routes = nambient = 0
+        npairs = npair_routes = nambient = nderived = 0
+        not_derivable: dict = {}
         for c in self._cases:
             obs = self._obs.get(lib.case_id(c))
             if isinstance(obs, dict) and 'routes' in obs:
@@ -2320,6 +2526,9 @@ class Check(PropertyCheck):
                     npair_routes += len(obs['routes'])
                 else:
                     nambient += sum(1 for n in obs['routes'] if n.startswith('ambient['))
+                    nderived += sum(1 for n in obs['routes'] if n.startswith('derived['))
+                    for d, e in (obs.get('derived') or {}).get('not_derivable', {}).items():
+                        not_derivable[f'{c["inst"]}/{d}'] = e
         classes = tr.all_operator_classes()
         concrete_missing = sorted(k.__name__ for k in classes if not inspect.isabstract(k) and k.__name__ not in seen)
         abstract = sorted(k.__name__ for k in classes if inspect.isabstract(k))
@@ -2342,6 +2551,8 @@ class Check(PropertyCheck):
             'concrete_classes_without_route_observation': concrete_missing,
             'shape_level_dynamic_fields_when_forced_to_be_traced_informative': probe,
             'boolean_mask_operators_under_filter_jit_informative': masks,
+            'derived_operator_routes_executed': nderived,
+            'derivations_that_raise_on_the_plain_object_informative': not_derivable,
             'failures': failures,
         }
 
